@@ -441,7 +441,11 @@ pub fn derive_extended_key(master: &ExtendedKey, path: &str) -> Result<ExtendedK
         return Err(ChainGangError::BadArgument(msg.to_string()));
     }
 
-    let mut key = *master;
+    // BIP-32: `M/...` denotes public keys, so start from the public form of the master
+    let mut key = match key_type {
+        ExtendedKeyType::Public => master.extended_public_key()?,
+        ExtendedKeyType::Private => *master,
+    };
 
     for part in parts[1..].iter() {
         if part.is_empty() {
